@@ -223,6 +223,16 @@ func init() {
 			return false
 		}
 		runH1(c, 1, gen, c05Oracle, moves)
+		// closed-loop part: real sidecars during a move, including cycles that run while a scrape is in
+		// flight; the hand-over is judged from the sidecars' counters and from the harness' own count
+		if c.Part == 0 {
+			st, tr := c.R.States, c.R.Transitions
+			single := *c
+			single.Parts = 1
+			runLoopConfigs(&single, "C05", c05LoopConfigs(c.Thorough()), true)
+			c.R.Counters["closed_loop_states"] = c.R.States - st
+			c.R.Counters["closed_loop_transitions"] = c.R.Transitions - tr
+		}
 	})
 	chk.Replayers["C05"] = replayH1(c05Oracle)
 }
